@@ -3,9 +3,13 @@ For every statement of the corpus (qgen + correlated subqueries, window function
 LIMIT, DML with subqueries) that the binder accepts, on several databases x engines x statistics: the optimizer terminates
 without panic, the optimized plan passes a static well-formedness walk (executor-supported operators only, every column
 reference resolvable in its input's schema, consistent join key lists, `true` residual where the executor asserts it),
-output types equal those of the bound plan, and executor::build + execution do not panic."""
+output types equal those of the bound plan, and executor::build + execution do not panic.
+Part 2 (lib/forms.py): every statement form of a DDL / settings / utility / odd-DML menu, alone and in every ordered pair, is run
+through Database::run on both engines: no panic, the session stays usable, and on disk the directory reopens."""
 import json
-from lib import core, runner, planutil
+import os
+from lib import core, runner, planutil, forms
+from lib import sqlutil as U
 
 
 def classify(r):
@@ -37,7 +41,9 @@ def run(tier, seed):
     chk = core.Check("C17", tier, "exploration",
                      f"{len(planutil.corpus(tier))} statements (qgen corpus + {len(planutil.EXTRA)} forms: correlated subqueries in WHERE/SELECT/HAVING, window functions, CTEs, views, DISTINCT ON, non-constant LIMIT, DML with subqueries) "
                      "x databases x {memory, disk} x statistics assignments; for every statement the binder accepts: optimize (no panic, < 2.5 s), static well-formedness walk, "
-                     "output types == bound types, executor::build and execution do not panic; a case = (db, engine, stats, sql); non-trivial = statement accepted by the binder", seed)
+                     "output types == bound types, executor::build and execution do not panic; a case = (db, engine, stats, sql); non-trivial = statement accepted by the binder. "
+                     f"Part 2: {len(forms.FORMS)} DDL / settings / utility / odd-DML statement forms, each alone on both engines and in every ordered pair (first = a catalog- or data-changing form), "
+                     "through Database::run: no panic, probe statements afterwards succeed, on disk two reopens succeed and the probe table is intact", seed)
     res = planutil.run_jobs(js)
     for (job, meta, chunk), r in zip(js, res):
         if r.get("abort"):
@@ -59,6 +65,30 @@ def run(tier, seed):
                 chk.fail(cid, v[0], c, v[1], outcome=v[0])
             else:
                 chk.ok(cid, nontrivial=True, outcome="run" if "run" in x else "runtime-error", sample={"case": c})
+    # part 2: statement forms (DDL, settings, utility statements, DML on views / system tables) through Database::run,
+    # alone and in ordered pairs
+    fcases = forms.cases(tier)
+    fres = runner.run_many("sql", [forms.script(e, f) for e, f in fcases], timeout=120, progress=5000)
+    nacc = 0
+    for (e, f), r in zip(fcases, fres):
+        c = {"engine": e, "forms": f}
+        cid = core.case_id(c)
+        v = forms.judge(e, f, r)
+        if v and v[0] == "MACHINERY":
+            chk.machinery(f"forms setup failed: {v[1]}")
+            continue
+        if v:
+            chk.fail(cid, "form:" + v[0], c, v[1], outcome="form:" + v[0])
+        else:
+            acc = [U.status(x) in ("rows", "ok") for x in r["results"][len(forms.SETUP):len(forms.SETUP) + len(f)]]
+            nacc += all(acc)
+            chk.ok(cid, nontrivial=any(acc), outcome="form:" + "".join("a" if a else "r" for a in acc), sample={"case": c})
+    chk.extra.update(statement_forms=len(forms.FORMS), form_scripts=len(fcases), form_scripts_all_accepted=nacc)
+    for fn in ("rlv_forms_out.csv", "rlv_forms_out2.csv", "rlv_forms_out3.csv"):
+        try:
+            os.remove("/dev/shm/" + fn)
+        except OSError:
+            pass
     chk.assumptions += ["egg's 5 s wall-clock limit is an uncontrolled input: a planning time above 2.5 s is reported instead of compared",
                         "runtime errors (e.g. arithmetic overflow) are not C17's business; panics are"]
     return chk
@@ -67,6 +97,12 @@ def run(tier, seed):
 def replay(path):
     d = json.load(open(path))
     c = d["case"]
+    if "forms" in c:
+        sc = forms.script(c["engine"], c["forms"])
+        out = runner.run_many("sql", [sc])[0]
+        for st, r in zip(sc["steps"], out.get("results", [])):
+            print(json.dumps(st), "->", json.dumps(r)[:300])
+        return 0
     for (job, meta, chunk) in planutil.jobs("thorough"):
         if meta == {k: c[k] for k in ("db", "engine", "layout", "stats")} and c["sql"] in chunk:
             job["stmts"] = [c["sql"]]
